@@ -18,19 +18,19 @@ COMMON_NOTE = (
 
 P = {
     "C01": dict(
-        technique="ast static analysis: visitor hook totality (MRO), guard-refinement dataflow computing each leaf node's accept-set, constraint table/operator agreement, counter-discipline rule for the unexpected-key shortcut",
-        text="Decides structural necessary conditions of C01, not acceptance<=>conformance for every type and datum: the compiler is total over the supported grammar, each leaf node accepts exactly the Python classes the data model documents (bool excluded from numbers, int allowed for float), the three constraint tables agree and each constraint applies the JSON-Schema operator of its keyword, and the `len(data) != fields_count` shortcut that skips the unexpected-property scan counts exactly the declared keys present in the datum.",
+        technique="ast static analysis: visitor hook totality (MRO), guard-refinement dataflow computing each leaf node's accept-set, constraint table/operator agreement, counter-discipline rule for the unexpected-key shortcut, child-invocation totality, truth tables of the reach conditions of the object-node event sites (path conditions evaluated over atoms read off the source)",
+        text="Decides structural necessary conditions of C01, not acceptance<=>conformance for every type and datum: the compiler is total over the supported grammar, each leaf node accepts exactly the Python classes the data model documents (bool excluded from numbers, int allowed for float), the three constraint tables agree and each constraint applies the JSON-Schema operator of its keyword, and the `len(data) != fields_count` shortcut that skips the unexpected-property scan counts exactly the declared keys present in the datum; every child method a node holds is applied to the matching part of the datum; object nodes apply the child, record MISSING / UNEXPECTED, copy TypedDict extras and attribute keys to flattened / pattern / additional fields under exactly the documented conditions.",
     ),
     "C02": dict(
-        technique="ast static analysis: accumulator typestate on the per-function CFG (result bound, pending => no normal exit), handler escape of child errors, key discipline, set-order determinism",
+        technique="ast static analysis: accumulator typestate on the per-function CFG (result bound, pending => no normal exit), handler escape of child errors, key discipline, set-order determinism, truth tables of the error-retention conditions, contract of the accumulation helpers, loop discipline of validate_constraints, natural order of the flattened errors",
         text="Decides that no node method can lose a child error or return / construct with one pending, that error keys are the loop's own key / index or the field alias, and that message order does not depend on set iteration; not that the reported set equals the set of violated rules for every datum.",
     ),
     "C03": dict(
-        technique="ast static analysis: exception-escape analysis with an input-taint / isinstance-refinement lattice and a hazard table, handler precision, input-mutation (ownership) rule",
+        technique="ast static analysis: exception-escape analysis with an input-taint / isinstance-refinement lattice and a hazard table, handler precision, input-mutation (ownership) rule, guarded lookups of dependent_required names in per-operation field tables",
         text="Decides that no exception other than ValidationError can escape a node method, coerce, bad_type, the constraint checks or ValidationError.errors because of what the input is (input modelled as an arbitrary object graph), and that the input is never mutated through an alias. Not decided: recursion depth, user callables.",
     ),
     "C04": dict(
-        technique="ast static analysis: hook totality; propositional table (<=2^11 valuations of atoms read off the source) relating omission causes, ComplexField flags and the strategy selection; key discipline of update_result",
+        technique="ast static analysis: hook totality; propositional table (<=2^11 valuations of atoms read off the source) relating omission causes, ComplexField flags and the strategy selection; key discipline of update_result; child-invocation totality; truth table of the container pass-through predicates; exit discipline of visitor methods",
         text="Decides compiler totality on the serialization side and soundness/completeness of the field-strategy selection: every value-based omission cause the documentation prescribes has its ComplexField flag set, and a field that can be omitted is compiled to the omitting strategy; serialize(v) == serialize(type(v), v) wiring. Not the equality of outputs with the documented image.",
     ),
     "C05": dict(
@@ -38,7 +38,7 @@ P = {
         text="Decides only that the two directions are built as mirrors (inverse pairing of the standard conversions, READ_ONLY/WRITE_ONLY and deserialization/serialization mirror maps, same field list and external-key expression). Round-trip equality of values is not decided.",
     ),
     "C06": dict(
-        technique="ast static analysis: sibling-visitor parity (hook sets, rejections), keyword-level table agreement between method nodes and schema builder",
+        technique="ast static analysis: sibling-visitor parity (hook sets, rejections), keyword-level table agreement between method nodes and schema builder, guards of the union-folding shortcuts, value-independence of the json_schema() keyword filter",
         text="Decides keyword-level agreement between DeserializationMethodVisitor and DeserializationSchemaBuilder per type construct (primitive rows, constraint keywords from one table, tuple arity, object required / additionalProperties / dependentRequired sources). Not whole-schema agreement (allOf, $ref, anyOf).",
     ),
     "C07": dict(
@@ -62,11 +62,11 @@ P = {
         text="Decides that every site that produces or consumes an external key derives it from the field's alias, dynamically aliased exactly once, in all five views (deserialize, serialize, both schemas, error loc, GraphQL), and that an aliaser in scope is forwarded to every callee accepting one. Not the class-aliaser override semantics.",
     ),
     "C12": dict(
-        technique="ast static analysis: direction hygiene of conversion hooks, sub-conversion threading, truth-table equivalence of the locality guard, registration order",
+        technique="ast static analysis: direction hygiene of conversion hooks, sub-conversion threading, truth-table equivalence of the locality guard, registration order, who-may-declare-a-dispatch-key rule for conversion factories",
         text="Decides direction hygiene and sibling agreement of the conversion hooks across all visitors, that the dynamic-conversion locality rule is decided in one place by a guard equivalent to `not dynamic and collection and not str`, append-only registration order. The commuting-square law over runtime values is not decided.",
     ),
     "C13": dict(
-        technique="ast static analysis: dispatch key vs computed accept-set agreement, shortcut applicability guard, first-success shape of the sequential union",
+        technique="ast static analysis: dispatch key vs computed accept-set agreement, shortcut applicability guard, first-success shape of the sequential union, who-may-declare-a-dispatch-key rule, wrapping of discriminated members",
         text="Decides that the by-type dispatch table is keyed consistently with what each alternative's node accepts (or the shortcut is excluded for the mismatching alternative), and that the shortcut is selected only when applicable (one key per alternative, no coercion). Not discriminator semantics.",
     ),
     "C14": dict(
@@ -90,7 +90,7 @@ P = {
         text="Decides vocabulary closure per target dialect (no instance-changing keyword outside the dialect remains, every removed keyword is translated unless declared unsupported), application at every nesting level, and agreement of reference prefix with the definitions key. Instance-set equality itself is not decided.",
     ),
     "C19": dict(
-        technique="ast static analysis: alias-flow rules on graphql/, validate-then-invoke dominance and non-swallowing, nullability sibling comparison, builder totality with named rejections",
+        technique="ast static analysis: alias-flow rules on graphql/, validate-then-invoke dominance and non-swallowing, nullability sibling comparison, builder totality with named rejections, by-name type cache rules (no dependence on scoped traversal state, no invented names), contradiction rule on Enum defaults, nested-visit context rule; 4 known findings",
         text="Decides three structural clauses - names (alias flow), arguments validated before the resolver runs with errors not catchable by the error handler, nullability wrapping decided identically for input fields and resolver arguments - plus builder totality. graphql-core validation and execution equality are not decided.",
     ),
     "C20": dict(
